@@ -35,7 +35,7 @@ Definition c4_eqb (a b : c4) : bool :=
 Definition c4_max (a b : c4) : c4 := c4_map2 N.max a b.
 
 (* Which repairs are applied.  Committed in /repo: fix_counters (7e92d8e), fix_stop (e0693a6), fix_active (d70a5ae),
-   fix_sent (9b87063), fix_l2stop (d95fed1).  Still open (known finding): fix_order. *)
+   fix_sent (9b87063), fix_l2stop (d95fed1).  Still open (known findings): fix_order, fix_prune. *)
 Record variant := Variant {
   fix_counters : bool;   (* applyVPPCounters also treats "cumulative < last reported" as a regress *)
   fix_stop : bool;       (* handleSessionRelease sends Stop only when it removed an acctCache entry *)
@@ -43,14 +43,15 @@ Record variant := Variant {
   fix_sent : bool;       (* a high-water mark of every value SENT (acknowledged or not) is kept, checkpointed, and
                             used as the floor of the next report *)
   fix_order : bool;      (* the provider calls of one session reach the provider in the order they were issued *)
-  fix_l2stop : bool      (* the Stop of an l2gw session reads the l2gw stats segment like its Interims *)
+  fix_l2stop : bool;     (* the Stop of an l2gw session reads the l2gw stats segment like its Interims *)
+  fix_prune : bool       (* pruning an orphaned accounting entry closes it at the backend with a Stop *)
 }.
 (* V s o l: the first three repairs plus any subset of the later three (the proofs are uniform in s, o, l) *)
-Definition V (s o l : bool) : variant := Variant true true true s o l.
-Definition head : variant := V true false true.        (* /repo HEAD: everything but the ordered delivery *)
-Definition repaired : variant := V true true true.
-Definition before_9b87063 : variant := V false false false.   (* HEAD before the sent-floor and l2gw-stop fixes *)
-Definition defective : variant := Variant false false false false false false.   (* the code as first found *)
+Definition V (s o l p : bool) : variant := Variant true true true s o l p.
+Definition head : variant := V true false true false.   (* /repo HEAD *)
+Definition repaired : variant := V true true true true.
+Definition before_9b87063 : variant := V false false false false.   (* HEAD before the sent-floor and l2gw-stop fixes *)
+Definition defective : variant := Variant false false false false false false false.   (* the code as first found *)
 
 (* AccountingSession: the fields the property depends on *)
 Record sess := Sess {
@@ -207,7 +208,9 @@ Definition lstep (v : variant) (g : bool) (s : sst) (ev : sev) : sst * list out 
            (db s), [])
   | EPrune past =>
       match cache s with
-      | Some e => if pending e && past then (Sst (inb s) None None, []) else (s, [])
+      | Some e => if pending e && past
+                  then (Sst (inb s) None None, if fix_prune v then [Stop (floor v e)] else [])
+                  else (s, [])
       | None => (s, [])
       end
   end.
@@ -292,7 +295,7 @@ Definition mst0 : mst := Mst false false false c4z c4z.
 Definition ge_floor (fs : bool) (m : mst) (c : c4) : bool :=
   c4_leb (m_ack m) c && (negb fs || c4_leb (m_sent m) c).
 
-Definition mon_step (fs : bool) (m : mst) (ev : sev) (o : list out) : option mst :=
+Definition mon_step (fs fp : bool) (m : mst) (ev : sev) (o : list out) : option mst :=
   match ev with
   | EActive _ _ =>
       if m_open m then
@@ -332,19 +335,20 @@ Definition mon_step (fs : bool) (m : mst) (ev : sev) (o : list out) : option mst
       | _ => None
       end
   | EPrune past =>
-      match o with
-      | [] => if m_open m && m_pend m && past then Some mst0 else Some m
-      | _ => None
-      end
+      if m_open m && m_pend m && past then
+        (* the orphaned accounting is dropped: fp = it is closed at the backend with a Stop at the floor *)
+        if fp then match o with [Stop c] => if ge_floor fs m c then Some mst0 else None | _ => None end
+        else match o with [] => Some mst0 | _ => None end
+      else match o with [] => Some m | _ => None end
   end.
 
-Fixpoint mon_run (fs : bool) (m : mst) (t : list (sev * list out)) : option mst :=
+Fixpoint mon_run (fs fp : bool) (m : mst) (t : list (sev * list out)) : option mst :=
   match t with
   | [] => Some m
-  | (ev, o) :: r => match mon_step fs m ev o with Some m' => mon_run fs m' r | None => None end
+  | (ev, o) :: r => match mon_step fs fp m ev o with Some m' => mon_run fs fp m' r | None => None end
   end.
-Definition accepted (fs : bool) (t : list (sev * list out)) : bool :=
-  match mon_run fs mst0 t with Some _ => true | None => false end.
+Definition accepted (fs fp : bool) (t : list (sev * list out)) : bool :=
+  match mon_run fs fp mst0 t with Some _ => true | None => false end.
 
 (* ------------------------------------------------------------------ *)
 (* Plain statements over the call stream, independent of the monitor. *)
@@ -359,7 +363,7 @@ Fixpoint bracketed (inside : bool) (l : list out) : bool :=
   | Stop _ :: r => bracketed false r
   end.
 
-(* every Stop in the trace answers a Released notification, and between two Stops the session was
+(* every Stop in the trace answers a Released notification (or closes a pruned orphan), and between two Stops the session was
    announced again (Active or Restored): armed = announced since the last Stop *)
 Fixpoint stops_ok (armed : bool) (t : list (sev * list out)) : bool :=
   match t with
@@ -368,6 +372,7 @@ Fixpoint stops_ok (armed : bool) (t : list (sev * list out)) : bool :=
       let nstops := length (filter (fun x => match x with Stop _ => true | _ => false end) o) in
       match ev with
       | EReleased _ => (if armed then Nat.leb nstops 1 else Nat.eqb nstops 0) && stops_ok false r
+      | EPrune _ => (if armed then Nat.leb nstops 1 else Nat.eqb nstops 0) && stops_ok (armed && Nat.eqb nstops 0) r
       | EActive _ _ | ERestored _ _ => Nat.eqb nstops 0 && stops_ok true r
       | _ => Nat.eqb nstops 0 && stops_ok armed r
       end
@@ -479,3 +484,24 @@ Fixpoint drun (v : variant) (g : bool) (d : dst) (xs : list dev) : dst * list ou
   end.
 Definition dev_events (xs : list dev) : list sev :=
   flat_map (fun x => match x with DEv ev => [ev] | _ => [] end) xs.
+
+(* The bracket WITH restore.  What the backend may see for one session, given the notifications: a prefix of
+   (Start Interim* Stop | Interim* Stop)* where a bracket without Start is only legitimate after a Restored notification:
+     BClosed  no accounting open at the backend
+     BQuiet   the session was restored and nothing has been sent for it yet (a Start, an Interim or a Stop may follow)
+     BOpen    a bracket is open (Interim or Stop may follow, never a Start) *)
+Inductive bstate := BClosed | BQuiet | BOpen.
+Fixpoint strict_calls (b : bstate) (l : list out) : option bstate :=
+  match l with
+  | [] => Some b
+  | Start :: r => match b with BOpen => None | _ => strict_calls BOpen r end
+  | Interim _ _ :: r => match b with BClosed => None | _ => strict_calls BOpen r end
+  | Stop _ :: r => match b with BClosed => None | _ => strict_calls BClosed r end
+  end.
+Fixpoint strictT (b : bstate) (t : list (sev * list out)) : bool :=
+  match t with
+  | [] => true
+  | (ev, o) :: r =>
+      let b1 := match ev, b with ERestored _ _, BClosed => BQuiet | _, _ => b end in
+      match strict_calls b1 o with Some b2 => strictT b2 r | None => false end
+  end.
